@@ -18,16 +18,25 @@ def mutate(rnd, data, k=None):
     for _ in range(k if k is not None else rnd.choice([0, 0, 0, 1, 1, 1, 2, 3, 6])):
         op = rnd.random()
         n = len(b)
-        if op < 0.22:                                     # truncation
+        if op < 0.20:                                     # truncation
             b = b[:rnd.randint(0, n)]
-        elif op < 0.42 and n:                             # byte substitution
+        elif op < 0.38 and n:                             # byte substitution
             b[rnd.randrange(n)] = rnd.choice([rnd.randrange(256), 0, 10, 13, 32, 34, 44, 45, 58, 91, 93, 123, 125, 255, 128, 195])
-        elif op < 0.62:                                   # insertion of a special token
+        elif op < 0.55:                                   # insertion of a special token
             i = rnd.randint(0, n); b[i:i] = rnd.choice(SPECIAL)
-        elif op < 0.74 and n:                             # deletion of a slice
+        elif op < 0.65 and n:                             # deletion of a slice
             i = rnd.randrange(n); j = min(n, i + rnd.choice([1, 1, 2, 5, 20])); del b[i:j]
-        elif op < 0.88 and n:                             # duplication of a slice (duplicated delimiters, repeated members)
+        elif op < 0.76 and n:                             # duplication of a slice (duplicated delimiters, repeated members)
             i = rnd.randrange(n); j = min(n, i + rnd.choice([1, 1, 2, 8, 40])); b[i:i] = b[i:j] * rnd.choice([1, 1, 2, 7])
+        elif op < 0.88 and n and b"\n" in b:                # damage exactly at a line end: the CR or LF replaced by a byte outside UTF-8, the line break dropped or doubled
+            ends = [i for i in range(n) if b[i] == 10]
+            empty = [i for i in ends if (i >= 2 and b[i - 1] == 13 and b[i - 2] == 10) or (i >= 1 and b[i - 1] == 10)]     # the ends of empty lines: where a head stops
+            i = rnd.choice(empty) if empty and rnd.random() < 0.5 else rnd.choice(ends); j = i - 1 if i > 0 and b[i - 1] == 13 else i
+            k = rnd.random()
+            if k < 0.4: b[rnd.choice([i, j])] = rnd.choice([0x8d, 0xff, 0xc3, 0x80])
+            elif k < 0.6: del b[j:i + 1]
+            elif k < 0.8: b[j:j] = b[j:i + 1]
+            else: b[j:j] = bytes([rnd.choice([0xff, 0xc3, 0xe2, 0x80])])
         elif op < 0.93 and n:                             # letter case of a word changed (header names, keywords, units)
             i = rnd.randrange(n); j = i
             while j < n and (65 <= b[j] <= 90 or 97 <= b[j] <= 122 or b[j] == 45): j += 1
